@@ -152,13 +152,19 @@ LEVEL_TEXT["C09"] = {
 }
 
 PROPS["C07"] = {
-    "targets": [vt("props/C07_condvar_vt.cpp", 15000, 60, 150000, 600)],
+    "targets": [vt("props/C07_condvar_vt.cpp", 15000, 60, 150000, 600),
+                vt("props/C07_stop_vt.cpp", 6000, 40, 100000, 600, shards=6)],
     "rule": "case = 1..3 waiters x 1..3 generations published by a notifier (notify_all, or notify_one when at most one waiter can be waiting; "
             "inside or after the user lock) x per waiter 1..2 waits in {wait(l,pred), wait_for(l,inf,pred), wait_until(l,finite,pred), "
             "wait_until(l,inf) loop, wait(l,stop_token,pred) with a generated request_stop point, wait(l) loop} on condition_variable_any over "
             "a harness lock whose lock/unlock are decision points x schedule tape; non-trivial iff a notification arrived between a waiter's "
             "release of its locks and the completion of its suspension (wake-up consumed before suspend) or a timed wait was notified; "
-            "distinct by hash of the case",
+            "distinct by hash of the case. Second target (stop-token waits): 2..4 waiters in {wait, wait_for(inf), wait_until(finite)} with "
+            "stop_token, each listening to one of 1..3 stop sources, predicates that become true at a generation or never, 0..2 published "
+            "generations, every source stopped exactly once at a generated point by the notifier or a separate stopper thread; oracle: return "
+            "value == pred(), false only if the own token was stopped (or the harness clock let the deadline pass), lock owned, and any "
+            "all-blocked state is a missed stop request; non-trivial iff a wait was released by a stop request only while another source was "
+            "stopped during some wait",
     "floor": {"quick": 200, "thorough": 2000},
     "assumptions": ["SC interleavings at hook/agent/user-lock granularity", "spurious wake-ups are allowed; only condition_variable_any runs without the runtime (pika::condition_variable + pika::mutex is covered through C01/C02 programs)"],
 }
@@ -170,7 +176,8 @@ LEVEL_TEXT["C07"] = {
 
 PROPS["C14"] = {
     "targets": [seq("props/C14_stop_history.cpp", 20000, 50, 300000, 600, shards=6),
-                vt("props/C14_stop_vt.cpp", 15000, 60, 150000, 600, shards=6)],
+                vt("props/C14_stop_vt.cpp", 15000, 60, 150000, 600, shards=6),
+                rt("props/C14_stop_rt.cpp", 120, 45, 3000, 600, shards=6)],
     "rule": "history part: case = 1..24 commands over 4 stop_source slots, 4 stop_token slots and 6 stop_callback slots (construct, nostopstate, "
             "copy/move construct, copy/move/self assign, swap, destroy, get_token, request_stop, register callback whose body may destroy itself, "
             "destroy another callback or register a further one, deregister); after every command stop_possible()/stop_requested() of every live "
@@ -178,7 +185,12 @@ PROPS["C14"] = {
             "over a source that owned a different state or has a callback body action. race part (E-vt): 1..3 concurrent request_stop callers x 1..3 "
             "callbacks registered / held / destroyed by their own logical threads, bodies that step, destroy themselves or another callback, under a "
             "schedule tape with decision points at the stopper loop (before/after execute) and at remove_callback; non-trivial iff >=2 racing "
-            "stoppers or a deregistration overlapped the stopper loop; distinct by hash",
+            "stoppers or a deregistration overlapped the stopper loop; distinct by hash. real-runtime part (E-rt): request_stop from a pika task or an "
+            "OS thread x 1..3 callbacks whose bodies yield the calling task 0..3 times and may destroy themselves x per callback a destroyer (pika "
+            "task with optional worker hint / OS thread) that starts after a generated number of body yields x runtime config (1..4 workers, 8 "
+            "policies, perturbation); oracle: a destructor called from another task/thread returns only when the body is not running, no body "
+            "starts after its destructor returned, at most once / exactly once, self-destruction returns; non-trivial iff a destructor overlapped "
+            "a suspended callback",
     "floor": {"quick": 200, "thorough": 2000},
     "assumptions": ["self-move-assignment is not generated", "callbacks destroyed by other callbacks during request_stop are only required to run at most once"],
 }
@@ -189,19 +201,22 @@ LEVEL_TEXT["C14"] = {
 }
 
 PROPS["C17"] = {
-    "targets": [vt("props/C17_queues_vt.cpp", 15000, 60, 200000, 600)],
+    "targets": [vt("props/C17_queues_vt.cpp", 15000, 60, 200000, 600),
+                seq("props/C17_queues_stress.cpp", 60, 40, 1500, 600, shards=2, engine="E-stress")],
     "rule": "case = container in {contiguous_index_queue (ranges up to 11 wide incl. ranges ending at 2^32-1), lock-free deque with a 2-node "
             "freelist, lockfree_fifo, lockfree_lifo, abp_fifo, abp_lifo back-ends} x 1..4 logical threads x scripts of push/pop at both ends "
             "(own/steal for the back-ends) x schedule tape with decision points at the index queue's load->CAS windows and the deque's anchor "
             "load / unstabilised push / stabilize / pop sites; single-threaded cases are checked against a std::deque reference model of the "
             "stated end order, concurrent cases against the multiset ledger (at most once while running, exactly once after a drain); "
-            "non-trivial iff sequential-model case or >= one context switch per thread beyond the start; distinct by hash",
+            "non-trivial iff sequential-model case or >= one context switch per thread beyond the start; distinct by hash. Second target "
+            "(real std::threads, no baton): container x 1..3 producers x 1..4 consumers x 200/2000/20000 elements per producer x 1..3 rounds x "
+            "yield-perturbation at the containers' hook sites, same ledger; non-trivial iff >=3 threads and >=2000 elements per producer",
     "floor": {"quick": 200, "thorough": 2000},
-    "assumptions": ["SC interleavings at hook granularity; TSO/weak-memory effects are out of reach of this engine"],
+    "assumptions": ["E-vt part: SC interleavings at hook granularity; the real-thread part samples whatever interleavings and store-buffer effects this x86 machine produces, it does not enumerate them"],
 }
 LEVEL_TEXT["C17"] = {
     "text": "The real containers run on harness-owned virtual threads with decision points inside their CAS loops (hook sites); every value pushed is unique, a ledger checks that no value is returned twice or invented at any time and that all values come out after producers finished and the container was drained; single-threaded cases are compared step by step with a std::deque reference model of each container's stated end order.",
-    "note": "Sequentially consistent interleavings at hook granularity, sampled from generated tapes; memory-order bugs that need store-buffer effects are not reachable.",
+    "note": "Sequentially consistent interleavings at hook granularity, sampled from generated tapes; a second generated real-thread target runs the same ledger under free-running std::threads so that store-buffer effects of this x86 machine are at least sampled.",
     "technique": "property-based testing with harness-owned deterministic schedules + sequential reference model (differential)",
 }
 
@@ -356,13 +371,19 @@ LEVEL_TEXT["C15"] = {
 }
 
 PROPS["C16"] = {
-    "targets": [procs("props/C16_config.cpp", 1500, 70, 20000, 900)],
+    "targets": [procs("props/C16_config.cpp", 1500, 70, 20000, 900),
+                {"src": "fuzz/C16_ini_fuzz.cpp", "kind": "fuzz", "engine": "E-fuzz", "extra_src": ["libs/pika/ini/src/ini.cpp"],
+                 "quick": {"shards": 4, "budget": 25, "max_len": 256}, "thorough": {"shards": 8, "budget": 600, "max_len": 512}}],
     "rule": "case = 1..3 settings out of {threads, scheduler, small stack size, bind, process mask, a plain existing ini entry (pika.max_busy_loop_count; unknown keys are rejected by pika)}, each given "
             "through a generated subset of its sources {environment variable, PIKA_COMMANDLINE_OPTIONS, --pika:ini=key=value, dedicated "
             "option} with pairwise distinct valid values (stack sizes in hex or decimal), options and positional arguments interleaved in a "
             "generated order, optional '--' tail; or one invalid input (non-numeric / zero thread count, unknown --pika: option, unknown "
             "scheduler, garbage in PIKA_THREADS or in a stack size); the probe is a freshly exec'ed process whose entry function reports what "
-            "the live runtime uses; non-trivial iff some setting has >=2 sources or the input is invalid; distinct by hash",
+            "the live runtime uses; non-trivial iff some setting has >=2 sources or the input is invalid; distinct by hash. Second target "
+            "(libFuzzer + ASan + UBSan, ini.cpp compiled into the target for coverage): structure-aware ini texts (sections, key = value, "
+            "${ENV:default} / $[key] expansions, raw garbage lines) against a reference parser for the well-formed subset (later lines "
+            "override earlier ones), clean-rejection, expansion and dump round-trip oracles; its distinct count is the number of corpus units "
+            "(coverage-increasing inputs), counted conservatively",
     "floor": {"quick": 50, "thorough": 500},
     "assumptions": ["reference order (docs/usage.rst + statement): dedicated option > --pika:ini on the command line > environment variable; dedicated option > "
                     "PIKA_COMMANDLINE_OPTIONS > environment variable; the relative order of --pika:ini and PIKA_COMMANDLINE_OPTIONS is not claimed and not generated",
